@@ -186,7 +186,12 @@ pub fn integer_schema(g: &mut G, c: &Ctx) -> Value {
         }
     } else if !c.cfg.enforced && g.chance(1, 6) {
         // lower bound 0 / 1: a documented selection rule (uint / NonZero)
-        s.insert("minimum".into(), json!(g.below(2)));
+        let m = g.below(2) as i64;
+        s.insert("minimum".into(), json!(m));
+        // the same bound stated a second time, exclusively (the inclusive one binds)
+        if g.chance(1, 3) {
+            s.insert("exclusiveMinimum".into(), json!(m - 1));
+        }
     }
     maybe_meta(g, c, s)
 }
@@ -368,6 +373,24 @@ pub fn map_schema(g: &mut G, c: &Ctx, depth: usize) -> Value {
     Value::Object(s)
 }
 
+/// A map whose keys are constrained through `propertyNames` (the key type becomes a
+/// constrained string newtype); values unconstrained, or typed.
+pub fn keyed_map_schema(g: &mut G, c: &Ctx, depth: usize) -> Value {
+    let p = pattern(g);
+    let mut names = json!({"pattern": p.re});
+    if g.chance(1, 4) {
+        names["maxLength"] = json!(12);
+    }
+    let mut s = json!({"type": "object", "propertyNames": names});
+    match g.below(4) {
+        0 => s["additionalProperties"] = json!(true),
+        1 => s["additionalProperties"] = leaf(g, c),
+        _ => {}
+    }
+    let _ = depth;
+    s
+}
+
 pub fn array_schema(g: &mut G, c: &Ctx, depth: usize) -> Value {
     let mut s = Map::new();
     s.insert("type".into(), json!("array"));
@@ -527,8 +550,18 @@ pub fn one_of(g: &mut G, c: &Ctx, depth: usize) -> Value {
             // internally tagged
             let tags = tag_values(g, n);
             let tagname = g.pick(&["type", "kind", "tag", "t"]).to_string();
+            // one variant may carry a second constant member besides the tag (it is data: the
+            // other variants do not have it, so it is no tag candidate)
+            let extra_const = n >= 2 && g.chance(1, 3);
             tags.iter()
-                .map(|t| closed_object(g, c, depth, vec![(tagname.clone(), json!({"type": "string", "enum": [t]}))], close, true))
+                .enumerate()
+                .map(|(i, t)| {
+                    let mut fixed = vec![(tagname.clone(), json!({"type": "string", "enum": [t]}))];
+                    if extra_const && i == 0 {
+                        fixed.push(("encoding_const".to_string(), json!({"type": "string", "enum": ["utf8"]})));
+                    }
+                    closed_object(g, c, depth, fixed, close, true)
+                })
                 .collect()
         }
         2 => {
@@ -758,6 +791,7 @@ pub fn schema(g: &mut G, c: &Ctx, depth: usize) -> Value {
         3,                               // oneOf
         if cfg.enforced { 0 } else { 1 }, // allOf of objects
         if cfg.wide { 2 } else { 0 },    // wide-only combinators
+        1,                               // map with constrained keys
     ]) {
         0 => leaf(g, c),
         1 => object_schema(g, c, depth),
@@ -766,7 +800,8 @@ pub fn schema(g: &mut G, c: &Ctx, depth: usize) -> Value {
         4 => nullable(g, c, depth),
         5 => one_of(g, c, depth),
         6 => all_of_objects(g, c, depth),
-        _ => wide_only(g, c, depth),
+        7 => wide_only(g, c, depth),
+        _ => keyed_map_schema(g, c, depth),
     };
     if cfg.titles && g.chance(1, 15) {
         if let Some(o) = v.as_object_mut() {
@@ -1015,10 +1050,11 @@ pub fn in_faithful(schema: &Value, defs: &[String]) -> bool {
     };
     let allowed: &[&str] = match t {
         "string" => &["type", "format", "minLength", "maxLength", "pattern"],
-        "integer" => &["type", "format", "minimum"],
+        "integer" => &["type", "format", "minimum", "exclusiveMinimum"],
         "number" => &["type", "format"],
         "boolean" | "null" => &["type"],
         "array" => &["type", "items", "additionalItems", "minItems", "maxItems", "uniqueItems"],
+        "object" if o.contains_key("propertyNames") => &["type", "propertyNames", "additionalProperties"],
         "object" => &["type", "properties", "required", "additionalProperties"],
         _ => return false,
     };
@@ -1039,7 +1075,9 @@ pub fn in_faithful(schema: &Value, defs: &[String]) -> bool {
             }
             o.get("format").map(|f| f.is_string()).unwrap_or(true)
         }
-        "integer" => o.get("minimum").map(|m| m == &json!(0) || m == &json!(1)).unwrap_or(true) && o.get("format").map(|f| f.as_str().map(|f| INT_FORMATS.contains(&f)).unwrap_or(false)).unwrap_or(true),
+        "integer" => o.get("minimum").map(|m| m == &json!(0) || m == &json!(1)).unwrap_or(true)
+            && o.get("exclusiveMinimum").map(|e| o.get("minimum").and_then(|m| m.as_i64()).map(|m| e == &json!(m - 1)).unwrap_or(false)).unwrap_or(true)
+            && o.get("format").map(|f| f.as_str().map(|f| INT_FORMATS.contains(&f)).unwrap_or(false)).unwrap_or(true),
         "array" => match o.get("items") {
             None => keys.iter().all(|k| *k == "type"),
             Some(Value::Array(items)) => {
@@ -1064,6 +1102,17 @@ pub fn in_faithful(schema: &Value, defs: &[String]) -> bool {
                 in_faithful(item, defs)
             }
         },
+        "object" if o.contains_key("propertyNames") => {
+            let Some(pn) = o["propertyNames"].as_object() else { return false };
+            pn.keys().all(|k| k == "pattern" || k == "maxLength")
+                && pn.get("pattern").and_then(|p| p.as_str()).and_then(find_pattern).is_some()
+                && pn.get("maxLength").map(|m| m == &json!(12)).unwrap_or(true)
+                && match o.get("additionalProperties") {
+                    None | Some(Value::Bool(true)) => true,
+                    Some(Value::Bool(false)) => false,
+                    Some(ap) => in_faithful(ap, defs),
+                }
+        }
         "object" => {
             let empty = Map::new();
             let props = match o.get("properties") {
@@ -1290,6 +1339,13 @@ pub fn doc_in_enforced(doc: &Value) -> bool {
                 }
                 if o.is_empty() {
                     return false; // the any-schema enforces nothing
+                }
+                if o.contains_key("propertyNames") {
+                    // the key constraints are what is enforced; typed values must be enforced ones too
+                    return match o.get("additionalProperties") {
+                        Some(ap @ Value::Object(_)) => only_enforced(ap),
+                        _ => true,
+                    };
                 }
                 if let Some(ap) = o.get("additionalProperties") {
                     if ap.is_object() {
